@@ -56,3 +56,19 @@ func C07Forget(h *Handler, streamID uint64) {
 	delete(h.streams, streamID)
 	h.mu.Unlock()
 }
+
+// C07PumpBoth runs the real pumpStdout and pumpStderr CONCURRENTLY on one shell stream (as a running
+// command does), stdout fed from `ro`, stderr from `re`; returns when both pumps have ended.
+func C07PumpBoth(h *Handler, peerID identity.AgentID, streamID uint64, key *crypto.SessionKey, ro, re io.Reader) {
+	ss := c07Stream(h, peerID, streamID, key)
+	ss.Session = &Session{stdout: io.NopCloser(ro), stderr: io.NopCloser(re), done: make(chan struct{})}
+	ss.pumpsDone.Add(2)
+	done := make(chan struct{}, 2)
+	go func() { h.pumpStdout(ss); done <- struct{}{} }()
+	go func() { h.pumpStderr(ss); done <- struct{}{} }()
+	<-done
+	<-done
+	h.mu.Lock()
+	delete(h.streams, streamID)
+	h.mu.Unlock()
+}
